@@ -397,11 +397,12 @@ def crashpoint_sweep(seed, run, max_steps=600):
     viol = []
     fired = 0
     for sstep in range(1, steps + 1):
+        fk = "async_exc" if (sstep + run) % 3 else "async_err"
         env = engine.execute(sub[:n1], share_tables=st)
         sim = sched.Sim(sub, {i: 0 for i in range(len(sub))}, sched.ReplayDecider([]), share_tables=st,
-                        faults=[{"op": i1, "step": sstep, "kind": "async_exc"}], env=env)
+                        faults=[{"op": i1, "step": sstep, "kind": fk}], env=env)
         env = sim.run()
-        fired += sim.fired.get("async_exc", 0)
+        fired += sim.fired.get("async_exc", 0) + sim.fired.get("async_err", 0)
         for i in range(len(sub)):
             v = env.heap[i]
             if isinstance(v, lang.Skipped) or (isinstance(v, lang.Failed) and v.injected):
@@ -416,7 +417,7 @@ def crashpoint_sweep(seed, run, max_steps=600):
                                    "config": "seq-fault", "differs_on": d[:8],
                                    "plan": {"gran": "LINE", "assign": {str(j): 0 for j in range(len(sub))},
                                             "mean_q": 1 << 20, "stall": None,
-                                            "faults": [{"op": i1, "step": sstep, "kind": "async_exc"}]},
+                                            "faults": [{"op": i1, "step": sstep, "kind": fk}]},
                                    "trace": [], "observed": {k: a.get(k) for k in d[:2]},
                                    "expected": {k: refs[i].get(k) for k in d[:2]},
                                    "hashseed": os.environ.get("PYTHONHASHSEED", "random")}, run))
